@@ -1,5 +1,7 @@
 /-
-Proofs/C12: helper lemmas for the flashing theorems (Props/C12).
+Proofs/C12: helper lemmas for the flashing theorems (Props/C12).  Core Lean only.
+Part 1: facts about the regenerated constants, struct packing, `upload_buffer` against any peer,
+the firmware-side decoder and the effect of load-buffer packets on the Spec target.
 -/
 import CfVerif.Base.StructLemmas
 import CfVerif.Spec.C12
@@ -7,6 +9,223 @@ namespace CfVerif.C12
 open CfVerif
 
 variable {σ : Type}
+
+/-! ### what the proofs use about Gen/C12 (each breaks the build when the source changes it) -/
+
+theorem fmt_upload : parseFmt! Gen.C12.uploadFmt = [.B, .B, .H, .H] := by decide
+theorem fmt_write : parseFmt! Gen.C12.writeFmt = [.B, .B, .H, .H, .H] := by decide
+theorem fmt_reply : parseFmt! Gen.C12.replyFmt = [.B, .B] := by decide
+theorem bootHdr_eq : bootHdr = 0xFF := by decide
+theorem gen_uploadFull (c : Nat) : Gen.C12.uploadFull c = decide (c > Gen.C12.uploadFlushAt) := rfl
+theorem gen_uploadNextAddr (i a : Nat) : Gen.C12.uploadNextAddr i a = i + a + 1 := rfl
+theorem gen_uploadCmd : Gen.C12.uploadCmd = 0x14 ∧ Gen.C12.uploadCmd1 = 0x14 := by decide
+theorem gen_uploadRoom : Gen.C12.uploadFlushAt + 1 + 6 ≤ 31 := by decide
+
+/-! ### packing -/
+
+theorem packU_nat (k n : Nat) (h : n < 256 ^ k) : packUnsigned k (n : Int) = .ok (leBytes k n) := by
+  show (if n < 256 ^ k then _ else _) = _
+  rw [if_pos h]
+
+theorem pack_BBHH (t c p a : Nat) (ht : t < 256) (hc : c < 256) (hp : p < 65536) (ha : a < 65536) :
+    pack [.B, .B, .H, .H] [.int t, .int c, .int p, .int a] =
+      .ok ([UInt8.ofNat t, UInt8.ofNat c] ++ leBytes 2 p ++ leBytes 2 a) := by
+  have e1 := packU_nat 1 t (by omega)
+  have e2 := packU_nat 1 c (by omega)
+  have e3 := packU_nat 2 p (by omega)
+  have e4 := packU_nat 2 a (by omega)
+  simp only [pack, packOne, e1, e2, e3, e4, bind, Except.bind, pure, Except.pure, leBytes]
+  have h1 : t % 256 = t := by omega
+  have h2 : c % 256 = c := by omega
+  simp [h1, h2]
+
+theorem pack_BBHHH (t c p a n : Nat) (ht : t < 256) (hc : c < 256) (hp : p < 65536) (ha : a < 65536)
+    (hn : n < 65536) :
+    pack [.B, .B, .H, .H, .H] [.int t, .int c, .int p, .int a, .int n] =
+      .ok ([UInt8.ofNat t, UInt8.ofNat c] ++ leBytes 2 p ++ leBytes 2 a ++ leBytes 2 n) := by
+  have e1 := packU_nat 1 t (by omega)
+  have e2 := packU_nat 1 c (by omega)
+  have e3 := packU_nat 2 p (by omega)
+  have e4 := packU_nat 2 a (by omega)
+  have e5 := packU_nat 2 n (by omega)
+  simp only [pack, packOne, e1, e2, e3, e4, e5, bind, Except.bind, pure, Except.pure, leBytes]
+  have h1 : t % 256 = t := by omega
+  have h2 : c % 256 = c := by omega
+  simp [h1, h2]
+
+/-! ### `upload_buffer` against any peer -/
+
+theorem sendAll_cons (P : Peer σ) (L : Link σ) (p : Pkt) (ps : List Pkt) :
+    sendAll P L (p :: ps) = sendAll P (L.send P p) ps := rfl
+
+theorem sendAll_append (P : Peer σ) (L : Link σ) (a b : List Pkt) :
+    sendAll P L (a ++ b) = sendAll P (sendAll P L a) b := by
+  simp [sendAll, List.foldl_append]
+
+theorem sendAll_sent (P : Peer σ) (pkts : List Pkt) : ∀ L : Link σ, (sendAll P L pkts).sent = L.sent ++ pkts := by
+  induction pkts with
+  | nil => intro L; simp [sendAll]
+  | cons p ps ih => intro L; rw [sendAll_cons, ih]; simp [Link.send]
+
+/-- `upload_buffer` after the first header has been packed -/
+def uploadRun (P : Peer σ) (tid : Int) (page address : Nat) (rest : List UInt8) (i count : Nat)
+    (cur : List UInt8) (L : Link σ) : Link σ × Except PyErr Unit :=
+  match uploadLoop P tid page address rest i count cur L with
+  | (L1, .error e) => (L1, .error e)
+  | (L1, .ok cur) => (L1.send P ⟨bootHdr, cur⟩, .ok ())
+
+theorem loadData_ok (tid page addr : Nat) (ht : tid < 256) (hp : page < 65536) (ha : addr < 65536) :
+    loadData tid 0x14 page addr = .ok ([UInt8.ofNat tid, 0x14] ++ leBytes 2 page ++ leBytes 2 addr) := by
+  unfold loadData
+  rw [fmt_upload]
+  exact pack_BBHH tid 0x14 page addr ht (by decide) hp ha
+
+theorem uploadRun_spec (P : Peer σ) (tid page address : Nat) (ht : tid < 256) (hp : page < 65536) :
+    ∀ (rest pend : List UInt8) (i base : Nat) (L : Link σ),
+      base + pend.length = address + i → pend.length ≤ Gen.C12.uploadFlushAt →
+      base + pend.length + rest.length < 65536 →
+      ∃ chunks : List (List UInt8), chunks.flatten = pend ++ rest ∧ chunks ≠ [] ∧
+        (∀ c ∈ chunks, c.length ≤ Gen.C12.uploadFlushAt + 1) ∧
+        uploadRun P tid page address rest i pend.length
+          ([UInt8.ofNat tid, 0x14] ++ leBytes 2 page ++ leBytes 2 base ++ pend) L =
+          (sendAll P L (loadPkts tid page base chunks), .ok ()) := by
+  intro rest
+  induction rest with
+  | nil =>
+    intro pend i base L _ hpl _
+    refine ⟨[pend], by simp, by simp, ?_, ?_⟩
+    · intro c hc; simp at hc; subst hc; omega
+    · simp [uploadRun, uploadLoop, loadPkts, sendAll, loadPkt, bootHdr_eq]
+  | cons b rest ih =>
+    intro pend i base L hbi hpl hfit
+    simp only [List.length_cons] at hfit
+    by_cases hc : pend.length + 1 > Gen.C12.uploadFlushAt
+    · -- the packet is full: transmit it, start the next one at base + pend.length + 1
+      obtain ⟨chunks, hfl, hne, hlen, hrun⟩ := ih [] (i + 1) (base + (pend ++ [b]).length)
+        (L.send P ⟨bootHdr, [UInt8.ofNat tid, 0x14] ++ leBytes 2 page ++ leBytes 2 base ++ (pend ++ [b])⟩)
+        (by simp; omega) (by simp) (by simp; omega)
+      refine ⟨(pend ++ [b]) :: chunks, by simp [hfl], by simp, ?_, ?_⟩
+      · intro c hc'
+        simp only [List.mem_cons] at hc'
+        rcases hc' with rfl | hc'
+        · simp; omega
+        · exact hlen c hc'
+      · have hld : loadData (tid : Int) Gen.C12.uploadCmd1 page (Gen.C12.uploadNextAddr i address) =
+            .ok ([UInt8.ofNat tid, 0x14] ++ leBytes 2 page ++ leBytes 2 (base + (pend ++ [b]).length)) := by
+          rw [gen_uploadCmd.2, gen_uploadNextAddr]
+          have : i + address + 1 = base + (pend ++ [b]).length := by simp; omega
+          rw [this]
+          exact loadData_ok tid page _ ht hp (by simp; omega)
+        unfold uploadRun at hrun ⊢
+        unfold uploadLoop
+        simp only [gen_uploadFull, hc, decide_true, if_true, hld]
+        simp only [List.length_nil, List.append_nil] at hrun
+        rw [loadPkts, sendAll_cons]
+        simp only [List.append_assoc] at hrun ⊢
+        rw [hrun]
+        simp [loadPkt, bootHdr_eq]
+    · have hc' : ¬ (pend.length + 1 > Gen.C12.uploadFlushAt) := hc
+      obtain ⟨chunks, hfl, hne, hlen, hrun⟩ := ih (pend ++ [b]) (i + 1) base L
+        (by simp; omega) (by simp; omega) (by simp; omega)
+      refine ⟨chunks, by simp [hfl], hne, hlen, ?_⟩
+      unfold uploadRun at hrun ⊢
+      unfold uploadLoop
+      simp only [gen_uploadFull, hc', decide_false, Bool.false_eq_true, if_false]
+      simp only [List.length_append, List.length_cons, List.length_nil, List.append_assoc] at hrun ⊢
+      exact hrun
+
+/-- `upload_buffer` transmits `buff` as consecutive load-buffer packets of at most `uploadFlushAt + 1`
+bytes at a running address, whatever the peer does. -/
+theorem uploadBuffer_spec (P : Peer σ) (L : Link σ) (tid page address : Nat) (buff : List UInt8)
+    (ht : tid < 256) (hp : page < 65536) (hfit : address + buff.length < 65536) :
+    ∃ chunks : List (List UInt8), chunks.flatten = buff ∧ chunks ≠ [] ∧
+      (∀ c ∈ chunks, c.length ≤ Gen.C12.uploadFlushAt + 1) ∧
+      uploadBuffer P L tid page address buff = (sendAll P L (loadPkts tid page address chunks), .ok ()) := by
+  obtain ⟨chunks, hfl, hne, hlen, hrun⟩ := uploadRun_spec P tid page address ht hp buff [] 0 address L
+    (by simp) (by simp) (by simpa using hfit)
+  refine ⟨chunks, by simpa using hfl, hne, hlen, ?_⟩
+  unfold uploadRun at hrun
+  unfold uploadBuffer
+  rw [gen_uploadCmd.1, loadData_ok tid page address ht hp (by omega)]
+  simp only [List.append_nil, List.length_nil] at hrun
+  cases hu : uploadLoop P (↑tid) page address buff 0 0
+      ([UInt8.ofNat tid, 0x14] ++ leBytes 2 page ++ leBytes 2 address) L with
+  | mk L1 r =>
+    rw [hu] at hrun
+    cases r with
+    | error e => simp at hrun
+    | ok cur =>
+      show (match uploadLoop P (↑tid) page address buff 0 0
+          ([UInt8.ofNat tid, 0x14] ++ leBytes 2 page ++ leBytes 2 address) L with
+        | (L1, Except.error e) => (L1, Except.error e)
+        | (L1, Except.ok cur) => (Link.send P L1 { hdr := bootHdr, data := cur }, Except.ok ())) = _
+      rw [hu]
+      exact hrun
+
+/-! ### the firmware-side decoder on well-formed packets -/
+
+theorem le16_leBytes (p : Nat) (hp : p < 65536) :
+    le16 (UInt8.ofNat (p % 256)) (UInt8.ofNat (p / 256 % 256)) = p := by
+  simp only [le16, UInt8.toNat_ofNat_mod]
+  omega
+
+theorem decode_loadPkt (tid page addr : Nat) (bytes : List UInt8) (ht : tid < 256) (hp : page < 65536)
+    (ha : addr < 65536) : decode tid (loadPkt tid page addr bytes) = some (.load page addr bytes) := by
+  have h1 : (UInt8.ofNat tid).toNat = tid := by simp; omega
+  simp [decode, loadPkt, leBytes, h1, le16_leBytes page hp, le16_leBytes addr ha]
+
+theorem decode_writePkt (tid bp fp n : Nat) (ht : tid < 256) (hb : bp < 65536) (hf : fp < 65536)
+    (hn : n < 65536) : decode tid (writePkt tid bp fp n) = some (.write bp fp n) := by
+  have h1 : (UInt8.ofNat tid).toNat = tid := by simp; omega
+  simp [decode, writePkt, leBytes, h1, le16_leBytes bp hb, le16_leBytes fp hf, le16_leBytes n hn]
+
+/-! ### load-buffer packets on the Spec target -/
+
+theorem Target.load_load (t : Target) (page a : Nat) (c r : List UInt8) :
+    (t.load page a c).load page (a + c.length) r = t.load page a (c ++ r) := by
+  unfold Target.load
+  congr 1
+  funext q o
+  simp only [List.length_append, List.getD_eq_getElem?_getD]
+  by_cases h1 : q = page ∧ a + c.length ≤ o ∧ o < a + c.length + r.length
+  · rw [if_pos h1, if_pos (by omega)]
+    rw [List.getElem?_append_right (by omega)]
+    congr 2; omega
+  · rw [if_neg h1]
+    by_cases h2 : q = page ∧ a ≤ o ∧ o < a + c.length
+    · rw [if_pos h2, if_pos (by omega)]
+      rw [List.getElem?_append_left (by omega)]
+    · rw [if_neg h2, if_neg (by omega)]
+
+theorem Target.load_nil (t : Target) (page a : Nat) : t.load page a [] = t := by
+  cases t with
+  | mk buf flash =>
+    unfold Target.load
+    congr 1
+    funext q o
+    simp only [List.length_nil, Nat.add_zero]
+    rw [if_neg (by omega)]
+
+theorem send_load (tid page addr : Nat) (bytes : List UInt8) (L : Link Env) (ht : tid < 256)
+    (hp : page < 65536) (ha : addr < 65536) :
+    L.send (targetPeer tid) (loadPkt tid page addr bytes) =
+      ⟨⟨L.st.tgt.load page addr bytes, L.st.script, L.st.lateQ⟩, L.inbox,
+        L.sent ++ [loadPkt tid page addr bytes]⟩ := by
+  simp [Link.send, targetPeer, decode_loadPkt tid page addr bytes ht hp ha]
+
+theorem sendAll_loads (tid page : Nat) (ht : tid < 256) (hp : page < 65536) :
+    ∀ (chunks : List (List UInt8)) (a : Nat) (L : Link Env), a + chunks.flatten.length < 65536 →
+      sendAll (targetPeer tid) L (loadPkts tid page a chunks) =
+        ⟨⟨L.st.tgt.load page a chunks.flatten, L.st.script, L.st.lateQ⟩, L.inbox,
+          L.sent ++ loadPkts tid page a chunks⟩ := by
+  intro chunks
+  induction chunks with
+  | nil => intro a L _; simp [sendAll, loadPkts, Target.load_nil]
+  | cons c cs ih =>
+    intro a L hfit
+    simp only [List.flatten_cons, List.length_append] at hfit
+    rw [loadPkts, sendAll_cons, send_load tid page a c L ht hp (by omega), ih _ _ (by show a + c.length + cs.flatten.length < 65536; omega)]
+    simp [Target.load_load]
 
 /-- the size guard precedes every transmission -/
 theorem refused_aux (P : Peer σ) (L : Link σ) (g : Geom) (image : List UInt8) (ov : Option Int) (term : List Bool)
